@@ -1081,7 +1081,7 @@ class Monitor:
         for d, p in cands:
             for lf in leaves(p):
                 self.blocked_seen.setdefault(lf.id, d.name)
-        if 'wake' not in on or not cands or self.c['probes'] > 600:
+        if 'wake' not in on or not cands or self.c['probes'] > 250:
             return                               # probe budget per case: bounds the cost, never decides anything
         self.c['blocked_ready'] += len(cands)
         # keep the copy small: delivered parts and recorded data play no role in hand-over decisions
